@@ -5,6 +5,6 @@ cd /repo || exit 2
 if ! git diff --quiet; then echo "/repo not clean"; exit 2; fi
 git apply "$patch" || { echo "patch does not apply"; exit 2; }
 for p in "$@"; do
-  (cd /verif && ./check $p --tier quick --no-selftest 2>&1 | grep -v "^KNOWN-FINDING" | cut -c1-400 | head -12; echo "exit=${PIPESTATUS[0]}")
+  (cd /verif && ./check $p --tier ${TIER:-quick} --no-selftest 2>&1 | grep -v "^KNOWN-FINDING" | cut -c1-400 | head -12; echo "exit=${PIPESTATUS[0]}")
 done
 git -C /repo checkout -- . ; git -C /repo status --short | head -3
